@@ -174,6 +174,26 @@ func runPolarityCoherent(p *Program, r *RuleResult) {
 					r.add(fnName(m.Fn), construct, Undecided, p.instrPos(ta), "no transition arm corresponds to this typing arm")
 					continue
 				}
+				// the interpreter picks its arm by the role of a particular channel; the typing
+				// arm must be selected by (at least) the role of that same channel
+				dispatched := false
+				for _, h := range hs {
+					if len(h.roles) > 0 {
+						dispatched = true
+					}
+				}
+				if dispatched && best == 0 {
+					var hk []string
+					for _, h := range hs {
+						for f := range h.roles {
+							hk = append(hk, f)
+						}
+					}
+					sort.Strings(hk)
+					r.add(fnName(m.Fn), construct, Violated, p.instrPos(ta),
+						fmt.Sprintf("this typing arm is selected by the role of %v, but the interpreter chooses what the form does by the role of %v: the two can disagree about which end of the channel the process is", rk, uniqStrings(hk)))
+					continue
+				}
 				pol := polarityOf(K)
 				if pol == "" {
 					r.add(fnName(m.Fn), construct, Undecided, p.instrPos(ta), "Polarity of "+K.Obj().Name()+" does not fold to a constant")
@@ -329,4 +349,14 @@ func runShadowSelf(p *Program, r *RuleResult) {
 			}
 		}
 	}
+}
+
+func uniqStrings(xs []string) []string {
+	var out []string
+	for i, x := range xs {
+		if i == 0 || x != xs[i-1] {
+			out = append(out, x)
+		}
+	}
+	return out
 }
